@@ -155,12 +155,63 @@ def conc_mc(cfgname, prop, out, st):
         out.violation('Conc.tla: %s violated in the design model' % r.violated, d, dict(kind='mc', violated=r.violated))
 
 
+def open_backlog_layer(prop, tier, seed, out, mc):
+    """The shape of the Conc.tla counterexample for ScheduleAtOpen = FALSE, on the real code: a big log is recovered with a
+    small write buffer, so the database comes up with a level-0 backlog at / above the stop trigger; writes made right after the
+    open must return (the open itself has to schedule the compaction that drains level 0)."""
+    from . import p_api
+    lib = c.build_lib(); exe = c.build_driver('seq', lib)
+    st = dict(executions=0, states=0, transitions=0, l0_at_open=[])
+    d = c.scratch('obl')
+    for vi, (nbig, wbuf) in enumerate([(16, 65536), (13, 32768)] if tier == 'quick' else [(16, 65536), (13, 32768), (20, 65536), (12, 16384), (30, 131072)]):
+        lines = ['put %d 100000' % (i % 16) for i in range(nbig)] + ['wbuf %d' % wbuf, 'reopenraw'] + ['put %d 70000' % (i % 16) for i in range(6)] + ['getall', 'scan']
+        sp = os.path.join(d, 'ob%d.txt' % vi); open(sp, 'w').write('\n'.join(lines) + '\n')
+        ex = sr.Exec(seed * 100 + vi, 0, 'mixed', bits=1 << 17); sr.run_exec(exe, ex, env={'VERIF_SCRIPT': sp}, timeout=150)
+        if ex.rc != 0:
+            ex2 = sr.Exec(seed * 100 + vi, 0, 'mixed', bits=1 << 17); sr.run_exec(exe, ex2, env={'VERIF_SCRIPT': sp}, timeout=150)
+            if ex2.rc == 0: raise Broken('open-backlog run failed once and passed once (rc=%s)' % ex.rc)
+            evs = sr.load_events(ex2.trace) if ex2.trace and os.path.exists(ex2.trace) else []
+            rd = c.replay_dir(prop, 'backlog'); shutil.copy(sp, os.path.join(rd, 'script.txt'))
+            last = [e for e in evs if e['e'] in ('put', 'reopen', 'call_write', 'RoomWait', 'BgSched')][-4:]
+            json.dump(dict(kind='script', prop=prop, bits=1 << 17, why='calls after an open with a level-0 backlog do not return' if getattr(ex2, 'timed_out', False) else 'exit %s' % ex2.rc, last_events=last), open(os.path.join(rd, 'replay.json'), 'w'), indent=1)
+            out.violation('a write after opening a database with a level-0 backlog never returned (%d values of 100 KB recovered with a %d byte write buffer): %s' % (nbig, wbuf, json.dumps(last)[:300]), rd, dict(kind='hang_open'))
+            if ex2.dir: c.rmtree(ex2.dir)
+            if ex.dir: c.rmtree(ex.dir)
+            continue
+        evs = sr.load_events(ex.trace)
+        st['executions'] += 1
+        for e in evs:
+            if e['e'] == 'RecoverManifest' or (e['e'] == 'VersionInstall' and e.get('manifest')):
+                pass
+        opens = [e for e in evs if e['e'] == 'OpenDone']
+        l0 = 0
+        for e in evs:
+            if e['e'] == 'VersionInstall': l0n = sum(1 for f in e['files'] if f[0] == 0); l0 = max(l0, l0n)
+        st['l0_at_open'].append(l0)
+        keep = p_api.PLANS['C01'][0]
+        api = [e for e in evs if keep(e)]
+        tp = os.path.join(ex.dir, 'api.ndjson'); sr.write_trace(tp, api)
+        r = c.trace_validate('KvTrace', 'KvTrace.cfg', tp)
+        st['states'] += r['res'].distinct; st['transitions'] += r['res'].generated
+        if not r['accepted']:
+            rd = c.replay_dir(prop, 'backlog'); shutil.copy(sp, os.path.join(rd, 'script.txt')); shutil.copy(tp, os.path.join(rd, 'trace.ndjson'))
+            json.dump(dict(kind='script', prop='C01', bits=1 << 17, why='KvTrace rejects the run'), open(os.path.join(rd, 'replay.json'), 'w'))
+            out.violation('reads after an open with a level-0 backlog are wrong (KvTrace rejects)', rd, dict(kind='api'))
+        c.rmtree(ex.dir)
+    if st['l0_at_open'] and max(st['l0_at_open']) < 12:
+        raise Broken('the open-backlog scenario did not reach the level-0 stop trigger: %s' % st['l0_at_open'])
+    c.rmtree(d)
+    mc['OpenBacklog'] = st
+
+
 def run_conc_prop(prop, tier, seed):
     t0 = time.time()
     out = Outcome(prop)
     st = {}; mc = {}
     conc_layer(prop, 'ConcTrace_%s.cfg' % prop, tier, seed, out, st)
     conc_mc('Conc_quick' if tier == 'quick' else 'Conc_thorough', prop, out, mc)
+    if prop == 'C09' and not out.full():
+        open_backlog_layer(prop, tier, seed, out, mc)
     sample = st.pop('sample', [])
     cov = dict(states=st.get('states', 0) + mc.get('states', 0), transitions=st.get('transitions', 0) + mc.get('transitions', 0),
                traces_validated_against_impl=st.get('executions', 0) - st.get('hangs', 0), samples=[sample], conc_trace=st, conc_mc=mc, exhaustive=False)
